@@ -14,7 +14,7 @@ RULE = ("X-mode-p cases: a random conformant call sequence (random presentation,
         "ioerr cases (pairs of W lines): the same call sequence, with flush() calls between top-level tags, against an accepting destination and "
         "against one that fails (injected errors, Ok(0), short writes, Interrupted): no verdict other than Ok -> I/O error may change, byte counts never "
         "decrease, and after every call that returns Ok where the undisturbed run handed bytes over the failing destination holds exactly what the "
-        "undisturbed one held (nothing accepted is lost; a later flush delivers it), the final bytes are equal when the last call succeeds and a prefix otherwise. "
+        "undisturbed one held (nothing accepted is lost; a later flush delivers it), and every element / Full / End / flush call that returns Ok with no known-size master open leaves exactly the undisturbed byte count (also when the call itself adds no bytes); the final bytes are equal when the last call succeeds and a prefix otherwise. "
         "non-trivial = at least 2 checkpoints where the parse was compared (ioerr: an I/O error occurred); distinct = distinct case line")
 TRUSTED = TRUSTED_BASE
 ASSUMPTIONS = ASSUME_BASE
@@ -278,6 +278,26 @@ def oracle_ioerr(case, outs):
             if c1[k] != c0[k]:
                 return ("after an I/O error of the destination a later successful call (op %d) left accepted tags undelivered: the destination holds %d bytes, "
                         "%d without the error: %s | %s   [%s]" % (k, c1[k], c0[k], " ".join(t0), " ".join(t1), case.lines[1][:500]))
+    # the clause itself, call by call: an element / Full / End / flush call that returns Ok while no known-size master is open has handed
+    # over everything accepted so far - also when the call itself added no bytes (the End of an unknown-size master)
+    stack = []
+    for k, (o, ts) in enumerate(case.meta.get("ops", [])):
+        if k >= len(names):
+            break
+        if o == "F":
+            stack, cp = [], True
+        else:
+            t = E.parse_tag(ts)
+            if t[0] == "s":
+                stack.append("u" if o == "u" else "k")
+                cp = False
+            else:
+                if t[0] == "e" and stack:
+                    stack.pop()
+                cp = True
+        if cp and "k" not in stack and names[k] == "OK" and c1[k] != c0[k]:
+            return ("call %d returned Ok with no known-size master open, but the destination holds %d bytes instead of the %d accepted so far (bytes retained after an "
+                    "earlier destination error were not handed over): %s | %s   [%s]" % (k, c1[k], c0[k], " ".join(t0), " ".join(t1), case.lines[1][:500]))
     if names[-1] == "OK" and d1 != d0:
         return "final output differs after a destination error: %s | %s   [%s]" % (d0.hex()[:300], d1.hex()[:300], case.lines[1][:500])
     if not d0.startswith(d1):
